@@ -66,6 +66,7 @@ Apply(st, e) ==
       [] x.ev = "rs" -> IF st.seed = 0 THEN [st EXCEPT !.seed = e] ELSE st
       [] x.ev \in ContactEvs -> IF st.cs[x.sub] = "U" THEN [st EXCEPT !.cs[x.sub] = CState(x.ev)] ELSE st
       [] x.ev \in {"join", "leave"} -> IF st.gj[x.sub] = "none" THEN [st EXCEPT !.gj[x.sub] = x.ev] ELSE st
+      [] OTHER -> st      \* "msg": an entry of the message log, no index state
 RECURSIVE ScanFrom(_, _, _)
 ScanFrom(src, i, st) == IF i = 0 THEN st ELSE ScanFrom(src, i - 1, Apply(st, src[i]))
 Scan(src) == ScanFrom(src, Len(src), NoState)
